@@ -14,6 +14,7 @@ import (
 	"github.com/ipld/go-car/v2/internal/carv1/util"
 	internalio "github.com/ipld/go-car/v2/internal/io"
 	"github.com/ipld/go-car/v2/internal/store"
+	"github.com/ipld/go-car/v2/verifhook"
 )
 
 var _ Blockstore = (*ReadWrite)(nil)
@@ -172,8 +173,10 @@ func OpenReadWriteFile(f *os.File, roots []cid.Cid, opts ...carv2.Option) (*Read
 func (b *ReadWrite) initWithRoots(v2 bool, roots []cid.Cid) error {
 	if v2 {
 		if _, err := b.f.WriteAt(carv2.Pragma, 0); err != nil {
+			verifhook.OnWrite(b.f, 0, carv2.Pragma, 0, err)
 			return err
 		}
+		verifhook.OnWrite(b.f, 0, carv2.Pragma, len(carv2.Pragma), nil)
 	}
 	return carv1.WriteHeader(&carv1.CarHeader{Roots: roots, Version: 1}, b.dataWriter)
 }
@@ -193,8 +196,11 @@ func (b *ReadWrite) Put(ctx context.Context, blk blocks.Block) error {
 // PutMany puts a slice of blocks at the same time using batching
 // capabilities of the underlying datastore whenever possible.
 func (b *ReadWrite) PutMany(ctx context.Context, blks []blocks.Block) error {
+	verifhook.Gate(b, "PutMany", "pre")
 	b.ronly.mu.Lock()
 	defer b.ronly.mu.Unlock()
+	verifhook.Gate(b, "PutMany", "locked")
+	defer verifhook.Gate(b, "PutMany", "unlocking")
 
 	if b.ronly.closed {
 		return errClosed
@@ -246,8 +252,11 @@ func (b *ReadWrite) Discard() {
 // This is the equivalent to calling FinalizeReadOnly and Close.
 // After this call, the blockstore can no longer be used.
 func (b *ReadWrite) Finalize() error {
+	verifhook.Gate(b, "Finalize", "pre")
 	b.ronly.mu.Lock()
 	defer b.ronly.mu.Unlock()
+	verifhook.Gate(b, "Finalize", "locked")
+	defer verifhook.Gate(b, "Finalize", "unlocking")
 
 	for _, err := range []error{b.finalizeReadOnlyWithoutMutex(), b.closeWithoutMutex()} {
 		if err != nil {
@@ -261,8 +270,11 @@ func (b *ReadWrite) Finalize() error {
 // for more efficient subsequent read, but keep it open read-only.
 // This call should be complemented later by a call to Close.
 func (b *ReadWrite) FinalizeReadOnly() error {
+	verifhook.Gate(b, "FinalizeReadOnly", "pre")
 	b.ronly.mu.Lock()
 	defer b.ronly.mu.Unlock()
+	verifhook.Gate(b, "FinalizeReadOnly", "locked")
+	defer verifhook.Gate(b, "FinalizeReadOnly", "unlocking")
 
 	return b.finalizeReadOnlyWithoutMutex()
 }
@@ -292,8 +304,11 @@ func (b *ReadWrite) finalizeReadOnlyWithoutMutex() error {
 // Close closes the blockstore.
 // After this call, the blockstore can no longer be used.
 func (b *ReadWrite) Close() error {
+	verifhook.Gate(b, "Close", "pre")
 	b.ronly.mu.Lock()
 	defer b.ronly.mu.Unlock()
+	verifhook.Gate(b, "Close", "locked")
+	defer verifhook.Gate(b, "Close", "unlocking")
 
 	return b.closeWithoutMutex()
 }
@@ -319,8 +334,11 @@ func (b *ReadWrite) AllKeysChan(ctx context.Context) (<-chan cid.Cid, error) {
 		return nil, ctx.Err()
 	}
 
+	verifhook.Gate(b, "AllKeysChan", "pre")
 	b.ronly.mu.Lock()
 	defer b.ronly.mu.Unlock()
+	verifhook.Gate(b, "AllKeysChan", "locked")
+	defer verifhook.Gate(b, "AllKeysChan", "unlocking")
 
 	if b.ronly.closed {
 		return nil, errClosed
@@ -331,6 +349,7 @@ func (b *ReadWrite) AllKeysChan(ctx context.Context) (<-chan cid.Cid, error) {
 	go func() {
 		defer close(out)
 		err := b.idx.ForEachCid(func(c cid.Cid, _ uint64) error {
+			verifhook.Gate(b, "AllKeysChan", "iter")
 			if !b.opts.BlockstoreUseWholeCIDs {
 				c = cid.NewCidV1(cid.Raw, c.Hash())
 			}
@@ -350,8 +369,11 @@ func (b *ReadWrite) AllKeysChan(ctx context.Context) (<-chan cid.Cid, error) {
 }
 
 func (b *ReadWrite) Has(ctx context.Context, key cid.Cid) (bool, error) {
+	verifhook.Gate(b, "Has", "pre")
 	b.ronly.mu.Lock()
 	defer b.ronly.mu.Unlock()
+	verifhook.Gate(b, "Has", "locked")
+	defer verifhook.Gate(b, "Has", "unlocking")
 
 	if b.ronly.closed {
 		return false, errClosed
